@@ -63,9 +63,11 @@ structure Cfg where
   /-- `Console(record=True)` -/
   record : Bool
   transient : Bool
-  /-- CODE VARIANT FLAG.  `true` = today's `Progress.stop`: the transient erase (`restore_cursor`) and
+  /-- CODE VARIANT FLAG.  `true` = the `Progress.stop` of rich 9.10.0 as found, which /repo still has (recorded known finding
+  `progress-stop-tail-vs-start`, no small safe repair; the harness constant `STOP_TAIL_UNLOCKED` stays 1): the transient erase (`restore_cursor`) and
   `_live_render._shape = None` run after the progress lock is released, so another thread's `start()` can slip in
-  between.  `false` = repaired: both happen before the lock is released (as in `Live.stop`). -/
+  between.  `false` = the proposed repair (pending_fixes/C11-progress-stop-tail-outside-lock.diff, not applied): both happen before the
+  lock is released (as in `Live.stop`). -/
   stopTailUnlocked : Bool := true
 deriving Repr, DecidableEq
 
